@@ -5,56 +5,77 @@ import Model.Notifier
 an inner map is a reference.  `RegisterFromNotifier` as written copies every inner map of the source into a fresh one
 before a name the destination does not know adopts it; the variant with `maps.Clone` (shallow; seeded regression
 ind6-c17-a / ind7-c17-a) lets the destination adopt the SOURCE's inner map.  This file is the model in which that
-difference exists (`hMergeStep deep`); it is used for the contrast `C17.shared_inner_map_refuted` and for the separation
-argument `C17.deep_merge_keeps_notifiers_separate` (what exactly the copy buys).  Scope: `productionMap` only (it alone decides deliveries); the
-name lists an `Unregister` walks are given (`HOp.unreg … ns`), batch set / level / flag hold no references. -/
+difference exists (`hMergeG … deep`); it is used for the contrast `C17.shared_inner_map_refuted` and for the separation
+argument `C17.deep_merge_keeps_notifiers_separate` (what exactly the copy buys).  `HWorld` is used for BOTH maps of maps: `PW` productionMap (decides deliveries) and `NW` nameMap (decides what `Unregister`
+walks); the batch set, level and flag hold no references. -/
 namespace NtH
 open Nt
 
 abbrev Addr := Nat
 
-structure HWorld where
-  /-- the inner maps: address ↦ (target ↦ priority) -/
-  heap : Addr → List (Nat × Int)
+/-- one Go map of maps per notifier, with the inner maps as heap cells: `κ` = key of the outer map, `ν` = content of an
+    inner map.  Used twice: `PW` (productionMap: name ↦ (target ↦ priority)) and `NW` (nameMap: target ↦ set of names). -/
+structure HWorld (κ ν : Type) where
+  /-- the inner maps: address ↦ content -/
+  heap : Addr → ν
   /-- next fresh address (`make`) -/
   next : Addr
-  /-- `productionMap` of notifier `i`: name ↦ reference to an inner map -/
-  pm : Nat → List (Name × Addr)
+  /-- the outer map of notifier `i`: key ↦ reference to an inner map -/
+  pm : Nat → List (κ × Addr)
 
-def HWorld.init : HWorld := { heap := fun _ => [], next := 0, pm := fun _ => [] }
+/-- productionMap with reference cells -/
+abbrev PW := HWorld Name (List (Nat × Int))
+/-- nameMap with reference cells -/
+abbrev NW := HWorld Nat (List Name)
 
-def hset (h : Addr → List (Nat × Int)) (a : Addr) (v : List (Nat × Int)) : Addr → List (Nat × Int) :=
-  fun x => if x = a then v else h x
-def upd (f : Nat → List (Name × Addr)) (i : Nat) (v : List (Name × Addr)) : Nat → List (Name × Addr) :=
+section generic
+variable {κ ν : Type} [DecidableEq κ]
+
+def HWorld.init (z : ν) : HWorld κ ν := { heap := fun _ => z, next := 0, pm := fun _ => [] }
+
+def hset (h : Addr → ν) (a : Addr) (v : ν) : Addr → ν := fun x => if x = a then v else h x
+def upd (f : Nat → List (κ × Addr)) (i : Nat) (v : List (κ × Addr)) : Nat → List (κ × Addr) :=
   fun x => if x = i then v else f x
 
-/-- what notifier `i` would deliver from: its production map with the references followed -/
-def deref (H : HWorld) (i : Nat) : PMap := (H.pm i).map (fun e => (e.1, H.heap e.2))
+/-- the outer map of notifier `i` with the references followed -/
+def deref (H : HWorld κ ν) (i : Nat) : List (κ × ν) := (H.pm i).map (fun e => (e.1, H.heap e.2))
+
+/-- `inner, ok := outer[k]; if !ok { inner = make(…); outer[k] = inner }; <mutate inner with f>` (`z` = the empty map) -/
+def hUpd (H : HWorld κ ν) (i : Nat) (k : κ) (f : ν → ν) (z : ν) : HWorld κ ν :=
+  match assocGet (H.pm i) k with
+  | some a => { H with heap := hset H.heap a (f (H.heap a)) }
+  | none => { heap := hset H.heap H.next (f z), next := H.next + 1, pm := upd H.pm i (assocSet (H.pm i) k H.next) }
+
+/-- `delete(outer, k)` -/
+def hDel (H : HWorld κ ν) (i : Nat) (k : κ) : HWorld κ ν := { H with pm := upd H.pm i (assocDel (H.pm i) k) }
+
+/-- one iteration of a merge loop of `RegisterFromNotifier` for the source's entry `e` = (key, reference); `comb mine theirs`
+    = the destination's inner map after the inner loop.
+    `deep = true`: the code (a key the destination does not know adopts a reference to a FRESH COPY);
+    `deep = false`: `maps.Clone` of the outer map only — the destination adopts the source's own inner map -/
+def hMergeG (comb : ν → ν → ν) (deep : Bool) (i : Nat) (H : HWorld κ ν) (e : κ × Addr) : HWorld κ ν :=
+  match assocGet (H.pm i) e.1 with
+  | some ai => { H with heap := hset H.heap ai (comb (H.heap ai) (H.heap e.2)) }
+  | none =>
+    if deep then
+      { heap := hset H.heap H.next (H.heap e.2), next := H.next + 1, pm := upd H.pm i (assocSet (H.pm i) e.1 H.next) }
+    else { H with pm := upd H.pm i (assocSet (H.pm i) e.1 e.2) }
+
+end generic
 
 /-- `set, ok := n.productionMap[name]; if !ok { set = make(…); n.productionMap[name] = set }; set[target] = priority` -/
-def hRegOne (H : HWorld) (i : Nat) (n : Name) (t : Nat) (p : Int) : HWorld :=
-  match assocGet (H.pm i) n with
-  | some a => { H with heap := hset H.heap a (assocSet (H.heap a) t p) }
-  | none => { heap := hset H.heap H.next [(t, p)], next := H.next + 1, pm := upd H.pm i (assocSet (H.pm i) n H.next) }
+def hRegOne (H : PW) (i : Nat) (n : Name) (t : Nat) (p : Int) : PW := hUpd H i n (fun set => assocSet set t p) []
 
 /-- `if set, ok := n.productionMap[name]; ok { delete(set, target); if len(set) == 0 { delete(n.productionMap, name) } }` -/
-def hUnregOne (i t : Nat) (H : HWorld) (n : Name) : HWorld :=
+def hUnregOne (i t : Nat) (H : PW) (n : Name) : PW :=
   match assocGet (H.pm i) n with
   | none => H
   | some a =>
     let H' := { H with heap := hset H.heap a (assocDel (H.heap a) t) }
     if assocDel (H.heap a) t = [] then { H' with pm := upd H.pm i (assocDel (H.pm i) n) } else H'
 
-/-- one iteration of the merge loop of `RegisterFromNotifier` for the source's entry `e` = (name, reference).
-    `deep = true`: the code (the reference the destination adopts points to a fresh copy);
-    `deep = false`: `maps.Clone` of the outer map only — the destination adopts the source's own inner map -/
-def hMergeStep (deep : Bool) (i : Nat) (H : HWorld) (e : Name × Addr) : HWorld :=
-  match assocGet (H.pm i) e.1 with
-  | some ai => { H with heap := hset H.heap ai (overlay (H.heap ai) (H.heap e.2)) }
-  | none =>
-    if deep then
-      { heap := hset H.heap H.next (H.heap e.2), next := H.next + 1, pm := upd H.pm i (assocSet (H.pm i) e.1 H.next) }
-    else { H with pm := upd H.pm i (assocSet (H.pm i) e.1 e.2) }
+/-- one iteration of the productionMap merge loop -/
+def hMergeStep (deep : Bool) (i : Nat) (H : PW) (e : Name × Addr) : PW := hMergeG overlay deep i H e
 
 inductive HOp where
   | reg (i : Nat) (n : Name) (t : Nat) (p : Int)
@@ -69,12 +90,46 @@ def HOp.target : HOp → Nat
   | .merge _ i _ => i
   | .reset i => i
 
-def hstep (H : HWorld) : HOp → HWorld
+def hstep (H : PW) : HOp → PW
   | .reg i n t p => hRegOne H i n t p
   | .unreg i t ns => ns.foldl (hUnregOne i t) H
   | .merge deep i m => if i = m then H else (H.pm m).foldl (hMergeStep deep i) H
   | .reset i => { H with pm := upd H.pm i [] }
 
-def hrun (ops : List HOp) : HWorld := ops.foldl hstep HWorld.init
+def hrun (ops : List HOp) : PW := ops.foldl hstep (HWorld.init [])
+
+/-! ### nameMap with reference cells -/
+
+/-- `targetNames, ok := n.nameMap[target]; if !ok { targetNames = make(…); n.nameMap[target] = targetNames };
+    targetNames[name] = true` -/
+def nAddName (t : Nat) (i : Nat) (H : NW) (n : Name) : NW := hUpd H i t (fun set => setIns set n) []
+
+/-- one iteration of the nameMap merge loop: `for k1, v1 := range v { nm[k1] = v1 }` or adoption -/
+def nMergeStep (deep : Bool) (i : Nat) (H : NW) (e : Nat × Addr) : NW :=
+  hMergeG (fun mine theirs => theirs.foldl setIns mine) deep i H e
+
+inductive NOp where
+  | reg (i t : Nat) (ns : List Name)
+  | unreg (i t : Nat)
+  | merge (deep : Bool) (i m : Nat)
+  | reset (i : Nat)
+
+def NOp.target : NOp → Nat
+  | .reg i .. => i
+  | .unreg i _ => i
+  | .merge _ i _ => i
+  | .reset i => i
+
+def NOp.deep : NOp → Bool
+  | .merge d _ _ => d
+  | _ => true
+
+def nstep (H : NW) : NOp → NW
+  | .reg i t ns => ns.foldl (nAddName t i) H
+  | .unreg i t => hDel H i t
+  | .merge deep i m => if i = m then H else (H.pm m).foldl (nMergeStep deep i) H
+  | .reset i => { H with pm := upd H.pm i [] }
+
+def nrun (ops : List NOp) : NW := ops.foldl nstep (HWorld.init [])
 
 end NtH
